@@ -18,7 +18,7 @@ import (
 // C05 — store-carry-forward: an accepted bundle is never silently lost.
 
 var c05Algos = []string{"epidemic", "spray", "binary_spray", "prophet", "dtlsr", "sensor-mule"}
-var c05Ops = []string{"submit", "submit", "recv", "recv", "recvdup", "up", "up", "up", "down", "script", "tick", "tick", "clean", "restart"}
+var c05Ops = []string{"submit", "submit", "recv", "recv", "recvdup", "up", "up", "up", "down", "script", "tick", "tick", "clean", "restart", "expire"}
 
 func c05Body(c *vk.Ctx, cs hCase) {
 	w := newHWorld(c, &cs)
@@ -36,6 +36,11 @@ func c05Body(c *vk.Ctx, cs hCase) {
 		pend := w.pendingPayloads()
 		for i, st := range w.bs {
 			if !st.accepted {
+				continue
+			}
+			if !st.alive() {
+				// its lifetime has ended or is about to: the statement is about bundles whose lifetime has not ended
+				c.Class("a bundle's lifetime ended while it waited")
 				continue
 			}
 			// (1) retained and marked for retry until a convergence layer reported a success
@@ -67,7 +72,7 @@ func c05Body(c *vk.Ctx, cs hCase) {
 			pn := w.names[op.A%cs.NPeers]
 			if !(cs.Algo == "sensor-mule" && strings.HasPrefix(pn, "sensor")) {
 				for i, st := range w.bs {
-					if !st.accepted || st.prevName == pn || st.succeeded[pn] {
+					if !st.accepted || st.prevName == pn || st.succeeded[pn] || !st.alive() {
 						continue
 					}
 					if st.destNode != "" && st.succeeded[st.destNode] {
@@ -104,7 +109,7 @@ func (w *hWorld) sentTo(news []vfSend, st *hBundleState, peer string) bool {
 
 func TestVerifC05Histories(t *testing.T) {
 	u := vk.Unit{Property: "C05", Name: "c05.histories", Quick: 360, Thorough: 18000,
-		Rule: "histories of 3..16 events over {application submits, peer delivers (with/without previous node), duplicate reception, peer appears/disappears, sends to a peer fail/succeed, pending-retry tick, store-cleaning tick, orderly restart} for 1..4 peers and 1..4 bundles (created now / in the same millisecond / with zero creation time + age block), per routing algorithm (epidemic, spray, binary_spray, prophet, dtlsr, sensor-mule); after every event: a bundle without a successful transmission is among the store's pending items and loads its payload; a waiting bundle whose destination node is a connected, succeeding peer has been transmitted to it; under epidemic routing a newly connected peer was offered every held bundle it does not have; non-trivial = a bundle waited in the store across a later event; distinct by case hash"}
+		Rule: "histories of 3..16 events over {application submits, peer delivers (with/without previous node), duplicate reception, peer appears/disappears, sends to a peer fail/succeed, pending-retry tick, store-cleaning tick, orderly restart, the short lifetimes end} for 1..4 peers and 1..4 bundles (created now / in the same millisecond / with zero creation time + age block; one in six with a lifetime of 1.5 s that may end while the bundle waits - such a bundle is exempt from then on, the others are not), per routing algorithm (epidemic, spray, binary_spray, prophet, dtlsr, sensor-mule); after every event: a bundle without a successful transmission is among the store's pending items and loads its payload; a waiting bundle whose destination node is a connected, succeeding peer has been transmitted to it; under epidemic routing a newly connected peer was offered every held bundle it does not have; non-trivial = a bundle waited in the store across a later event; distinct by case hash"}
 	g := genHistory(c05Algos, 4, c05Ops, 16)
 	vk.Check(t, u, func(t *rapid.T) hCase { return g.Draw(t, "history") }, c05Body)
 }
